@@ -1,6 +1,7 @@
 package checks
 
 import (
+	"bytes"
 	"fmt"
 	"math"
 	"os"
@@ -352,11 +353,66 @@ func buildC05(tier string) *core.Plan {
 			c.Outcome("format-as-specified")
 		}}
 	return &core.Plan{
-		Spaces: []core.Space{roundTrip, cliSpace, multiSpace},
+		Spaces: []core.Space{roundTrip, cliSpace, multiSpace, c05FileFormatSpace()},
 		Rule: "every single-document stream built from 78 look-alike strings (incl. multi-line strings with significant leading/trailing/inner white space) (as root, key, value, list entry, nested), 12 boundary numbers, bools and empty containers; all trees up to 3 nodes over a reduced look-alike alphabet; every stream of 2-4 documents over an 8-document pool; " +
 			"each in all 6 output formats (TOML: map-rooted only); CLI matrix -f x -o extension x (virtual) input extension x real format",
 		Assumptions: []string{"decode(encode(docs)) is compared by value (2.0 may read back as 2) with bkl's decoder, with a fresh Parser loading the bytes as a file, and with Python json / PyYAML under a YAML 1.2 core-schema resolver / tomllib",
 			"strings contain no $ (they would be directives when re-read as a file)"},
 		Bounds: map[string]any{"streams": len(streams), "items": len(items), "cli_cases": len(cli)},
 	}
+}
+
+// c05FileFormatSpace: one Parser writes several files one after the other; each file's format is
+// named by ITS extension (or the explicit argument), whatever was written before - and a writer
+// without a format always gets the documented default.
+func c05FileFormatSpace() core.Space {
+	exts := c05Formats
+	n := int64(len(exts))
+	return core.Space{Name: "several-output-files-from-one-parser", N: n * n * n,
+		Desc: func(i int64) any { return []string{exts[i/(n*n)], exts[(i/n)%n], exts[i%n]} },
+		Run: func(c *core.Ctx, i int64) {
+			seq := []string{exts[i/(n*n)], exts[(i/n)%n], exts[i%n]}
+			dir := scratchDir()
+			defer os.RemoveAll(dir)
+			p := newParser()
+			if err := p.MergeDocument(newDoc("d", map[string]any{"a": 1, "m": map[string]any{"k": "v"}})); err != nil {
+				return
+			}
+			c.Eval()
+			c.Trans(len(seq) + 1)
+			for k, e := range seq {
+				path := filepath.Join(dir, fmt.Sprintf("out%d.%s", k, e))
+				want, werr := p.Output(e)
+				if werr != nil {
+					return
+				}
+				explicit := ""
+				if k == 1 {
+					explicit = e // the middle file names its format explicitly (under a neutral extension)
+					path = filepath.Join(dir, "out1.txt")
+				}
+				if err := p.OutputToFile(path, explicit); err != nil {
+					c.Fail("format-selection", "output-to-file-fails", strings.Join(seq, ","), errStr(err))
+					return
+				}
+				got, _ := os.ReadFile(path)
+				c.Validated()
+				if string(got) != string(want) {
+					c.Outcome("FILE-FORMAT-FOLLOWS-EARLIER-CALL")
+					c.Fail("format-selection", "file-not-in-the-format-of-its-extension", fmt.Sprintf("OutputToFile sequence %s, file %d", strings.Join(seq, ","), k),
+						map[string]any{"file": string(got), "want": string(want)})
+					return
+				}
+			}
+			var buf bytes.Buffer
+			if err := p.OutputToWriter(&buf, ""); err == nil {
+				def, _ := p.Output("json-pretty")
+				if buf.String() != string(def) {
+					c.Fail("format-selection", "writer-default-follows-earlier-call", strings.Join(seq, ","), map[string]any{"got": buf.String(), "want": string(def)})
+					return
+				}
+			}
+			c.Nontrivial()
+			c.Outcome("each-file-in-its-own-format")
+		}}
 }
